@@ -6,4 +6,6 @@ export CARGO_NET_OFFLINE=true
 cd "$HERE/harness"
 mkdir -p target "$HERE/evidence" "$HERE/replays"
 cargo build --release --offline -p rsv
+# second build profile (no debug assertions, wrapping arithmetic): every check repeats a quarter of its cases there
+cargo build --profile wrap --offline -p rsv || echo "NOTE: second profile did not build; that pass will be skipped"
 echo "setup ok"
